@@ -125,6 +125,19 @@ def make_worlds(tier):
         w = worlds.gen_feasible_world(rnd)
         w["class"] = "feasible"
         ws.append(w)
+    # the optimisation-based planners inside simulate() (future placements, explicit workers, plan-ahead)
+    n_plan = 12 if tier == "quick" else 600
+    for i in range(n_plan):
+        kind = ("ilp", "ts_gurobi", "ts_cplex")[i % 3]
+        w = worlds.gen_world(rnd, kinds=("edf",), closed_loop=(i % 2 == 0))
+        w["sched"] = {"kind": kind, "runtime": 0, "enforce": rnd.random() < 0.5, "lookahead": rnd.choice([0, 5]),
+                      "retract": rnd.random() < 0.3, "rtg": rnd.random() < 0.4 and kind != "ts_cplex",
+                      "goal": "max_goodput", "disc": rnd.choice([1, 2]), "plan_ahead": -1}
+        if kind == "ilp" and not w["sched"]["enforce"]:
+            w["sched"]["goal"] = "max_slack"  # ILP refuses max_goodput without deadline enforcement
+        w["flags"]["timeout"] = rnd.choice([60, 100])
+        w["class"] = "planner"
+        ws.append(w)
     return ws
 
 
@@ -136,7 +149,8 @@ def crash_key(world, tr):
     if end.get("hang"):
         zero_rt = any(s["rt"] == 0 for p in world["profiles"] for s in p["strats"])
         what = "zero_length_steps" if "zero-length" in end["hang"] else ("too_many_actions" if "loop actions" in end["hang"] else "cpu_time")
-        return f"hang:{what}:zero_runtime_strategy={zero_rt}"
+        freq0 = world.get("flags", {}).get("frequency", -1) == 0
+        return f"hang:{what}:zero_runtime_strategy={zero_rt}" + (":scheduler_frequency=0" if freq0 else "")
     msg = end.get("exc") or ""
     m = re.sub(r"[0-9a-f]{8}-[0-9a-f-]{27}", "<id>", msg)
     m = re.sub(r"\b[A-Za-z0-9_]+@[A-Za-z0-9_@]+", "<task>", m)
@@ -166,7 +180,14 @@ def corpus(tier):
     mach = [t for t in traces if "machinery_error" in t]
     if mach:
         raise RuntimeError(f"tracer failed on {len(mach)} worlds: {mach[0]['machinery_error']}\n{mach[0].get('tb')}")
+    # solver licence limits (restricted Gurobi / CPLEX community edition) are limits of this sandbox, not verdicts:
+    # such worlds are dropped from the corpus and counted
+    LIC = ("size-limited license", "CPLEX Error  1016", "Promotional version", "problem size limits")
+    skipped = [i for i, t in enumerate(traces) if any(x in (t.get("end", {}).get("exc") or "") for x in LIC)]
+    ws = [w for i, w in enumerate(ws) if i not in skipped]
+    traces = [t for i, t in enumerate(traces) if i not in skipped]
     viols, stats = simcheck.validate(traces, nbatches=16)
+    stats["skipped_solver_licence_limit"] = len(skipped)
     out = {"worlds": [], "stats": stats, "t_sim": round(t_sim, 1), "t_total": 0, "counts": {}}
     counts = {}
     for i, (w, tr) in enumerate(zip(ws, traces)):
@@ -246,11 +267,12 @@ def check(pid: str, tier: str, res: CheckResult | None = None) -> CheckResult:
                     )
     res.extra["sim_corpus"] = {
         "worlds": len(c["worlds"]),
-        "by_class": {k: sum(1 for w in c["worlds"] if w["class"] == k) for k in ("directed", "finding", "random", "feasible")},
+        "by_class": {k: sum(1 for w in c["worlds"] if w["class"] == k) for k in ("directed", "finding", "random", "feasible", "planner")},
         "by_policy": {k: sum(1 for w in c["worlds"] if w["kind"] == k) for k in sorted({w["kind"] for w in c["worlds"] if w["kind"]})},
         "records_validated": c["stats"]["records"],
         "event_and_row_counts": c["counts"],
         "incomplete_traces": c["stats"]["incomplete"],
+        "worlds_skipped_solver_licence_limit": c["stats"].get("skipped_solver_licence_limit", 0),
         "sim_wall_s": c["t_sim"],
         "total_wall_s": c["t_total"],
         "clause_hits_for_this_property": nviol,
